@@ -4,7 +4,7 @@
 extern "C" void vp_mp(void)
 {
 	long hsm_store[(sizeof(SoftHSM) + 7) / 8 + 1]; SoftHSM* hsm = (SoftHSM*)(void*)&hsm_store[0];
-	hsm->supportedMechanisms.n = 0;
+	VP_INIT_CONTAINER(hsm->supportedMechanisms);
 	if (IN(sm_n) >= 1) hsm->supportedMechanisms.push_back(IN(sm0));
 	if (IN(sm_n) >= 2) hsm->supportedMechanisms.push_back(IN(sm1));
 	CK_MECHANISM mech; mech.mechanism = IN(mech); mech.pParameter = NULL_PTR; mech.ulParameterLen = 0;
